@@ -42,9 +42,6 @@ func exec(c px.Context, op string, args []sx.Sexp) core.Result {
 	if op == "sigs" {
 		return execSigs(c, args)
 	}
-	if op == "descc" {
-		return execDescc(c, args)
-	}
 	if op == "sigd" {
 		return execSigd(c, args)
 	}
@@ -321,6 +318,6 @@ func gen(g *core.G) {
 	genDescs(g, lg)
 	genCallable(g)
 	genSigd(g, lg)
-	genDescc(g, lg)
+	genCallTerms(g, lg)
 	lat.GenTier2(g.Emit, g.Rng, "C19")
 }
